@@ -183,6 +183,12 @@ def _call(args):
         return ("exc", traceback.format_exc())
 
 
+def _worker_init():
+    import signal
+    signal.signal(signal.SIGTERM, signal.SIG_DFL)
+    signal.signal(signal.SIGALRM, signal.SIG_DFL)
+
+
 def pmap(fn, arglist, nproc=None):
     """Run fn(*args) for every args tuple in arglist on a process pool; yields results in completion order.
     A worker exception is a harness failure (Inconclusive)."""
@@ -198,7 +204,7 @@ def pmap(fn, arglist, nproc=None):
             yield r
         return
     ctx = multiprocessing.get_context("fork")
-    with ctx.Pool(n) as pool:
+    with ctx.Pool(n, initializer=_worker_init) as pool:
         for st, r in pool.imap_unordered(_call, [(fn, a) for a in arglist], chunksize=1):
             if st != "ok":
                 pool.terminate()
